@@ -373,6 +373,22 @@ def run_case(rec, inp):
                           dict(short, mode="tabulated", keys=["ang_diameter_distances", "redshifts"]),
                           repr(e), "same value as with K=0 (docstring: 'ok' and 'K' optional, non-flat only)")
 
+    # ---- the user's table is the whole cosmology: a CURVED table gives the same distances whatever model string the likelihood was declared with
+    if model == "oLCDM" and p["ok"] != 0 and "tabulated" in obs:
+        for decl in ("FLCDM", "FwCDM", "w0waCDM", "NONE"):
+            try:
+                cl = build(inp, lenses, "tabulated", decl)
+                a_decl = {"FLCDM": [p["h0"], p["om"]], "FwCDM": [p["h0"], p["om"], -1.0], "w0waCDM": [p["h0"], p["om"], -1.0, 0.0], "NONE": []}[decl] + [mu_sne]
+                kc = {**cl.param.args2kwargs(a_decl)[0], **tab, **tab_extra, "ok": p["ok"]}
+                o = observe(cl, cl.cosmo_instance(kc), za)
+                same = all(abs(o[k] - obs["tabulated"][k]) <= 1e-10 * (1 + abs(o[k])) for k in o)
+                rec.check(same, "C05:tabulated_curved_any_model:%s" % decl,
+                          "a curved distance table (with its ok and K) gives other distances under model string %s than under oLCDM" % decl,
+                          dict(short, mode="tabulated", declared_model=decl), o, obs["tabulated"])
+            except Exception as e:
+                rec.violation("C05:raises:tabulated_curved:%s" % decl, "curved table under model string %s raises %r" % (decl, e),
+                              dict(short, mode="tabulated", declared_model=decl), traceback.format_exc(limit=3), "distances of the table")
+
     # ---- kwargs_fixed_cosmo: the fixed value is the one used
     fk = inp["fixed_key"]
     if fk is not None:
